@@ -609,6 +609,9 @@ fn main() {
                 }
                 ensure!(va.sum() == a.iter().fold(r(0), |s, x| s + *x), "sum");
                 ensure!(va.norm_1() == a.iter().fold(r(0), |s, x| s + abs(*x)), "norm_1");
+                // every unary / scalar form, every (start, end) range, find, sort, constructors on the long vectors too
+                single_case(&a)?;
+                single_case(&b)?;
                 pair_case(&a, &b)
             });
         },
